@@ -115,20 +115,24 @@ unsafe impl<A: BumpAllocatorCore> Allocator for WithoutShrink<A> {
         unsafe fn shrink_unfit<A: BumpAllocatorCore>(
             this: &WithoutShrink<A>,
             ptr: NonNull<u8>,
-            old_layout: Layout,
             new_layout: Layout,
         ) -> Result<NonNull<[u8]>, AllocError> {
             let new_ptr = this.0.allocate(new_layout)?.cast::<u8>();
-            unsafe { ptr.copy_to_nonoverlapping(new_ptr, old_layout.size()) };
+            unsafe { ptr.copy_to_nonoverlapping(new_ptr, new_layout.size()) };
             Ok(NonNull::slice_from_raw_parts(new_ptr, new_layout.size()))
         }
+
+        debug_assert!(
+            new_layout.size() <= old_layout.size(),
+            "`new_layout.size()` must be smaller than or equal to `old_layout.size()`"
+        );
 
         unsafe {
             if non_null::is_aligned_to(ptr, new_layout.align()) {
                 Ok(NonNull::slice_from_raw_parts(ptr, new_layout.size()))
             } else {
                 // expected to virtually never occur
-                shrink_unfit(self, ptr, old_layout, new_layout)
+                shrink_unfit(self, ptr, new_layout)
             }
         }
     }
